@@ -84,6 +84,34 @@ func (e *Enc) call(f *frame, c *ssa.CallCommon, instr *ssa.Call, pos token.Pos) 
 		// interface method call: contract attached to the interface type
 		recv := e.val(c.Value)
 		key := "type " + typeKey(c.Value.Type()) + " method " + c.Method.Name()
+		if f.con != nil && len(f.con.CallAsserts) > 0 {
+			// call-site assertions on interface method calls: "<pkg.Type>.<Method>#n"
+			disp := typeKey(c.Value.Type()) + "." + c.Method.Name()
+			n := f.ncallAll[disp]
+			f.ncallAll[disp]++
+			for _, ca := range f.con.CallAsserts {
+				if ca.Callee == disp && ca.N == n && !ca.After {
+					env := e.cellEnv(f, pos, e.cur.clone())
+					env.names["arg0"] = TV{V: recv, Ty: c.Value.Type()}
+					for i, a := range args {
+						env.names[fmt.Sprintf("arg%d", i+1)] = TV{V: a, Ty: c.Signature().Params().At(i).Type()}
+					}
+					label := ca.Clause.Label
+					if label == "" {
+						label = "a"
+					}
+					n0 := len(e.obls)
+					e.oblige("pre", fmt.Sprintf("%s/at.%s#%d.%s", f.name, disp, n, label), e.evalBool(env, ca.Clause), pos)
+					if len(e.obls) > n0 {
+						e.obls[n0].Env = env
+						e.obls[n0].ClauseText = ca.Clause.Text
+					}
+					if e.dry == 0 {
+						f.assertsSeen[fmt.Sprintf("%s#%d", disp, n)] = true
+					}
+				}
+			}
+		}
 		if con := e.L.Contracts.ByKey["|"+key]; con != nil {
 			return pack(e.applyContract(f, con, key, append([]Val{recv}, args...), c.Signature(), nil, pos))
 		}
@@ -894,11 +922,10 @@ func (e *Enc) funcResult(con *Contract, display string, i int, rt types.Type, ar
 			leaves = append(leaves, e.flatten(ptypes[k], a)...)
 		}
 	}
-	ls := leavesOf(rt)
-	if len(ls) != 1 {
-		return e.freshVal(rt, "fr")
+	for _, g := range con.Reads {
+		leaves = append(leaves, e.getVar(e.cur, "G|"+g, SBV64))
 	}
-	name := "uf_" + sanitize(display) + fmt.Sprintf("_%d", i)
+	ls := leavesOf(rt)
 	if e.ufDecls == nil {
 		e.ufDecls = map[string]string{}
 	}
@@ -906,15 +933,26 @@ func (e *Enc) funcResult(con *Contract, display string, i int, rt types.Type, ar
 	for _, l := range leaves {
 		sorts = append(sorts, l.Sort)
 	}
-	e.ufDecls[name] = fmt.Sprintf("(declare-fun %s (%s) %s)", name, strings.Join(sorts, " "), ls[0].Sort)
-	t := T{"(" + name, ls[0].Sort}
-	for _, l := range leaves {
-		t.S += " " + l.S
+	mk := func(k int) T {
+		name := "uf_" + sanitize(display) + fmt.Sprintf("_%d_%d", i, k)
+		e.ufDecls[name] = fmt.Sprintf("(declare-fun %s (%s) %s)", name, strings.Join(sorts, " "), ls[k].Sort)
+		t := T{"(" + name, ls[k].Sort}
+		for _, l := range leaves {
+			t.S += " " + l.S
+		}
+		t.S += ")"
+		if len(leaves) == 0 {
+			t.S = name
+		}
+		return t
 	}
-	t.S += ")"
-	if len(leaves) == 0 {
-		t.S = name
+	if len(ls) != 1 {
+		k := 0
+		v := e.rebuild(rt, func() T { t := e.def("fr", mk(k)); k++; return t })
+		e.assumeTypeInv(rt, v)
+		return v
 	}
+	t := mk(0)
 	seen := false
 	for _, in := range e.inputs {
 		if in.Expr == t.S {
